@@ -81,6 +81,8 @@ pub enum Vp {
     Pv(Vec<PvSpec>),
     /// `RangedI64ValueParser::<u8>::new()`: the public constructor, bounds wider than the target type
     U8New,
+    /// `value_parser!(PathBuf)`: anything but the empty string
+    PathBuf,
 }
 
 #[derive(Clone, Debug, PartialEq, Eq, Hash, Default, Serialize, Deserialize)]
@@ -411,6 +413,7 @@ pub fn build_arg(s: &ArgSpec) -> Arg {
         Vp::Falsey => a = a.value_parser(clap::builder::FalseyValueParser::new()),
         Vp::NonEmpty => a = a.value_parser(clap::builder::NonEmptyStringValueParser::new()),
         Vp::U8New => a = a.value_parser(clap::builder::RangedI64ValueParser::<u8>::new()),
+        Vp::PathBuf => a = a.value_parser(value_parser!(std::path::PathBuf)),
         Vp::Pv(pvs) => {
             let vals: Vec<PossibleValue> = pvs
                 .iter()
